@@ -319,7 +319,7 @@ static int opsMode(int argc, char** argv)
     for (int j = 0; j <= nt; j++)
         ang[j] = 2 * M_PI * j / nt;
     ang[nt] = 2 * M_PI;
-    double split = nc >= nr ? rad[nr - 1] + 1 : rad[nc];
+    double split = nc >= nr ? rad[nr - 1] + 1 : nc == 0 ? -1.0 : rad[nc];
     CzarnyGeometry geom(1.3, 0.3, 1.4);
     SonnendruckerGyroCoefficients coeff(1.3, 0.66);
     auto grid = std::make_unique<PolarGrid>(rad, ang, split);
